@@ -50,7 +50,7 @@ def required_counters(tier):
         "moment.between": 20,
         "moment.inside_running_call": 20,
         "no_type_check.above": 10,
-        "no_type_check.below": 10, "no_type_check.after_first_call": 10, "disabled.calls.non_binding": 50,
+        "no_type_check.below": 10, "no_type_check.after_first_call": 10, "threads.switch_seen_in_other_thread": 10, "update.item_name_case": 30, "disabled.calls.non_binding": 50,
         "kind.dataclass": 10,
         "kind.property": 10,
         "hooked_module.runs": 2,
@@ -279,6 +279,62 @@ def arm_config_update(rec, rng):
             rec.violation("switch-parse", {"value": repr(v)}, f"config.update('jaxtyping_disable', {v!r}) -> {got}, expected ValueError", mechanism="update-illegal-" + got.split(":")[0])
     for v in (0, 1):
         rec.open_corner("int-0-1-as-switch-value")
+    # the switches are process-wide: flipped in one thread, seen by decorated calls in every thread
+    import threading
+
+    import typeguard as _tg
+
+    kinds_t = make_callables(_tg.typechecked)
+    fpl, fde = kinds_t["function"]
+
+    def in_thread(fn):
+        box = []
+        t = threading.Thread(target=lambda: box.append(fn()))
+        t.start()
+        t.join()
+        return box[0]
+
+    pool_worker_ready, pool_go, pool_out = threading.Event(), threading.Event(), []
+
+    def pre_existing_worker():
+        pool_worker_ready.set()
+        pool_go.wait(30)
+        pool_out.append(outcome(fde, *INPUTS["ill_param"]())[0][:2])
+
+    w = threading.Thread(target=pre_existing_worker)
+    w.start()
+    pool_worker_ready.wait(30)
+    config.update("jaxtyping_disable", True)  # main thread flips the switch
+    try:
+        o_new = in_thread(lambda: outcome(fde, *INPUTS["ill_param"]())[0][:1])
+        pool_go.set()
+        w.join(30)
+        rec.count("threads.switch_seen_in_other_thread")
+        rec.case(("thread-switch",), True)
+        if o_new != ("ret",) or (pool_out and pool_out[0][:1] != ("ret",)):
+            rec.violation("disabled-differs", {"moment": "switch flipped in the main thread, call in another thread"}, f"disabled in the main thread, but a new thread got {o_new} and a pre-existing thread {pool_out}", mechanism="switch-not-seen-in-other-thread")
+        in_thread(lambda: config.update("jaxtyping_disable", False))  # a worker switches it back on
+        o_main = outcome(fde, *INPUTS["ill_param"]())[0][:2]
+        if o_main != ("exc", "TypeCheckError"):
+            rec.violation("not-rechecked", {"moment": "switched back on in a worker thread"}, f"re-enabled in a worker thread, main thread ill-typed call gave {o_main}", mechanism="switch-not-seen-in-other-thread")
+    finally:
+        pool_go.set()
+        config.update("jaxtyping_disable", False)
+    # the item NAME is matched case-insensitively by the API: every accepted spelling must really switch
+    for nm in ("JAXTYPING_DISABLE", "Jaxtyping_Disable", "jaxtyping_DISABLE"):
+        try:
+            config.update(nm, True)
+            acc = True
+        except ValueError:
+            acc = False
+        rec.count("update.item_name_case")
+        rec.case(("item-name", nm), True)
+        if acc:
+            o = outcome(fde, *INPUTS["ill_param"]())[0][:1]
+            config.update(nm, False)
+            config.update("jaxtyping_disable", False)
+            if o != ("ret",):
+                rec.violation("switch-parse", {"item": nm}, f"config.update({nm!r}, True) was accepted but checking stayed on ({o})", mechanism="accepted-item-name-has-no-effect")
     try:
         config.update("jaxtyping_no_such_option", True)
         rec.violation("switch-parse", {"item": "jaxtyping_no_such_option"}, "unknown config item accepted", mechanism="unknown-item-accepted")
